@@ -396,7 +396,7 @@ func init() {
 			for su := 0; su < ns; su++ {
 				if d.Quick() {
 					add("plain", su, "10KB", []int{8, 16, 64, 4}[su%4], 400)
-				specs[len(specs)-1].Args["bursts"] = "12000"
+					specs[len(specs)-1].Args["bursts"] = "12000"
 					add("plain", su, "1KB", []int{16, 64, 4, 8}[su%4], 1500)
 					add("race", su, []string{"1KB", "8KB"}[su%2], []int{4, 8, 16}[su%3], 250)
 				} else {
@@ -404,7 +404,7 @@ func init() {
 						add("plain", su, "10KB", g, 1500)
 						add("plain", su, "1KB", g, 5000)
 						add("plain", su, "8KB", g, 1500)
-					specs[len(specs)-1].Args["bursts"] = "100000"
+						specs[len(specs)-1].Args["bursts"] = "100000"
 					}
 					for _, g := range []int{2, 4, 8, 16} {
 						add("race", su, "1KB", g, 1200)
